@@ -28,7 +28,7 @@
 (*   peak    largest number of simultaneously not-dead handles so far      *)
 (*   led     cid -> "held" | "returned" | "destroyed"   (C08 ledger)       *)
 (*   zdes, zret  zero-sized values destroyed by the library / handed back  *)
-(*   inm     inside World::maintain                                        *)
+(*   inm     nesting depth of World::maintain (a lazy action may call it)  *)
 (*   fault   a destructor has panicked in this world (C19): from then on   *)
 (*           leaks are allowed, double drops and stale reads are not       *)
 (*   resid   per storage: indices whose mask bit survived an interrupted   *)
@@ -66,7 +66,7 @@ W0(cfg) ==
     evq    |-> [s \in 1..cfg.S |-> <<>>],
     resid  |-> [s \in 1..cfg.S |-> {}],
     lazyq  |-> <<>>, peak |-> 0, led |-> <<>>, zdes |-> 0, zret |-> 0,
-    inm    |-> FALSE, fault |-> FALSE, tid |-> cfg.tid ]
+    inm    |-> 0, fault |-> FALSE, tid |-> cfg.tid ]
 
 NotDead(w) == {h \in w.issued : w.status[h] # "dead"}
 \* a handle the monitor has never seen is treated as dead (harness never sends one)
@@ -192,10 +192,10 @@ Enqueue(w, a) ==
 \*                               evs |-> events the registered reader received]]
 
 \* which property a sweep mismatch is charged to, by the kind of event
-AliveProp(w, ev) == IF w.inm \/ ev.op \in {"LazyRun", "MaintainEnd"} THEN "C09" ELSE "C02"
+AliveProp(w, ev) == IF w.inm > 0 \/ ev.op \in {"LazyRun", "MaintainEnd"} THEN "C09" ELSE "C02"
 CompProp(w, ev, h) ==
   IF w.fault \/ ev.op = "Fault" THEN "C19"
-  ELSE IF ev.op \in {"LazyRun", "MaintainEnd"} \/ (w.inm /\ ev.op \notin {"SOp", "WOp"}) THEN "C09"
+  ELSE IF ev.op \in {"LazyRun", "MaintainEnd"} \/ (w.inm > 0 /\ ev.op \notin {"SOp", "WOp"}) THEN "C09"
   ELSE IF ev.op = "SOp" THEN (IF DeadOrUnknown(w, ev.h) \/ DeadOrUnknown(w, h) THEN "C03" ELSE "C04")
   ELSE IF ev.op = "WOp" THEN (IF ev.k \in {"restrict"} THEN "C13" ELSE "C04")
   ELSE IF DeadOrUnknown(w, h) THEN "C03"
@@ -299,7 +299,7 @@ DeleteAll(w, ev) == [w |-> Purge(w, SortedById(NotDead(w))), f |-> {}]
 
 MaintainBegin(w, ev) ==
   LET w1 == Purge(w, SortedById({h \in w.issued : w.status[h] = "doomed"})) IN
-  [w |-> [w1 EXCEPT !.merged = [h \in w.issued |-> TRUE], !.inm = TRUE], f |-> {}]
+  [w |-> [w1 EXCEPT !.merged = [h \in w.issued |-> TRUE], !.inm = @ + 1], f |-> {}]
 
 LazyRun(w, ev) ==
   LET w1 == DrainSilent(w)
@@ -311,11 +311,11 @@ LazyRun(w, ev) ==
             ELSE LET p == CHOOSE i \in pos : \A j \in pos : i <= j IN SubSeq(q, 1, p - 1) \o SubSeq(q, p + 1, Len(q))
   IN [w |-> [w1 EXCEPT !.lazyq = q2],
       f |-> (IF ~okHead THEN {F("C09", "lazy action ran out of order / twice / unqueued", ev.id)} ELSE {})
-       \cup (IF ~w.inm THEN {F("C09", "lazy action ran outside maintain", ev.id)} ELSE {})]
+       \cup (IF w.inm = 0 THEN {F("C09", "lazy action ran outside maintain", ev.id)} ELSE {})]
 
 MaintainEnd(w, ev) ==
   LET w1 == DrainSilent(w) IN
-  [w |-> [w1 EXCEPT !.inm = FALSE],
+  [w |-> [w1 EXCEPT !.inm = IF @ > 0 THEN @ - 1 ELSE 0],
    f |-> IF w1.lazyq # <<>> THEN {F("C09", "queued lazy actions left over after maintain", Len(w1.lazyq))} ELSE {}]
 
 LazyQueue(w, ev) ==
@@ -546,7 +546,7 @@ Fault(w, ev) ==
                                                           ELSE w.resid[s]],
                       !.led = LedSetAll(LedSetAll(w.led, des, "destroyed"), ret, "returned"),
                       !.evq = [s \in DOMAIN w.comp |-> <<>>],
-                      !.inm = FALSE],
+                      !.inm = 0],
       f |-> {F("C19", "a lookup returns a value that was already destroyed / handed back (storage, handle, value)",
                <<p[1], o.hs[p[2]], o.st[p[1]].get[p[2]]>>) : p \in exposed}
        \cup (IF L.anomalies # <<>> THEN {F("C19", "a value was destroyed twice", L.anomalies)} ELSE {})
